@@ -33,6 +33,7 @@ type Case struct {
 	ReadErr    int      `json:"readerr"`    // -1 never; k: a read error is injected after k further chunks
 	Cycles     int      `json:"cycles"`     // Suspend/Resume cycles before the final action
 	CycleInput int      `json:"cycleinput"` // unpolled input present at each intermediate Suspend
+	ResizeAway bool     `json:"resize_away"` // the window changes size while suspended and changes back after Resume
 	Actors     []string `json:"actors"`     // goroutines running during shutdown
 	Last       string   `json:"last"`       // fini | suspend
 	Post       []string `json:"post"`       // calls made afterwards
@@ -49,7 +50,8 @@ func genCase(t *rapid.T) Case {
 	c.ReadErr = rapid.SampledFrom([]int{-1, -1, -1, 0, 1, 5, 12}).Draw(t, "readerr")
 	c.Cycles = rapid.SampledFrom([]int{0, 0, 1, 2, 3}).Draw(t, "cycles")
 	c.CycleInput = rapid.SampledFrom([]int{0, 1, 10, 11, 25}).Draw(t, "cycleinput")
-	all := []string{"poller", "poster", "resizer", "shower", "setter", "channel"}
+	c.ResizeAway = rapid.IntRange(0, 2).Draw(t, "resizeaway") == 0
+	all := []string{"poller", "poster", "resizer", "shower", "setter", "channel", "stalled-channel"}
 	for _, a := range all {
 		if rapid.IntRange(0, 2).Draw(t, "actor-"+a) == 0 {
 			c.Actors = append(c.Actors, a)
@@ -111,6 +113,18 @@ func loopCount() int {
 	c := 0
 	for _, g := range strings.Split(string(buf[:n]), "\n\n") {
 		if strings.Contains(g, "(*tScreen).inputLoop") || strings.Contains(g, "(*tScreen).mainLoop") {
+			c++
+		}
+	}
+	return c
+}
+
+func channelEventsCount() int {
+	buf := make([]byte, 1<<20)
+	n := runtime.Stack(buf, true)
+	c := 0
+	for _, g := range strings.Split(string(buf[:n]), "\n\n") {
+		if strings.Contains(g, "(*baseScreen).ChannelEvents") {
 			c++
 		}
 	}
@@ -186,12 +200,26 @@ func prop(c Case) error {
 		if n := loopCount() - baseline; n > 0 {
 			return fmt.Errorf("after Suspend (cycle %d): %d tcell background goroutine(s) still running:\n%s", cyc, n, tcellStacks())
 		}
+		if c.ResizeAway {
+			// the user resizes the window while another program has the terminal ...
+			tty.SetSize(18, 4, false) // smaller than before
+		}
 		var rerr error
 		if err := guard("Resume", func() { rerr = s.Resume() }); err != nil {
 			return err
 		}
 		if rerr != nil {
 			return fmt.Errorf("Resume (cycle %d): %v", cyc, rerr)
+		}
+		if c.ResizeAway {
+			// ... and back to the old size right after we resumed
+			tty.SetSize(20, 5, true)
+			if err := guard(fmt.Sprintf("Show after Resume (cycle %d; window resized while suspended and back afterwards)", cyc), func() { s.Show() }); err != nil {
+				return err
+			}
+			if err := guard("Size after Resume", func() { s.Size() }); err != nil {
+				return err
+			}
 		}
 		// drain whatever is queued, then input and resize delivery must work again
 		deadline := time.Now().Add(5 * time.Second)
@@ -265,6 +293,10 @@ func prop(c Case) error {
 	chanQuit := make(chan struct{})
 	chanClosed := make(chan struct{})
 	hasChannel := false
+	stalled := false
+	stalledCh := make(chan tcell.Event)
+	stalledQuit := make(chan struct{})
+	chanBaseline := channelEventsCount()
 	for _, a := range c.Actors {
 		switch a {
 		case "poller":
@@ -317,6 +349,19 @@ func prop(c Case) error {
 					runtime.Gosched()
 				}
 			}()
+		case "stalled-channel":
+			// a ChannelEvents consumer that takes one event and then stops
+			// receiving: the forwarding goroutine is parked on the hand-over
+			stalled = true
+			go func() {
+				s.ChannelEvents(stalledCh, stalledQuit)
+			}()
+			go func() {
+				<-stalledCh
+			}()
+			for i := 0; i < 3; i++ {
+				_ = s.PostEvent(tcell.NewEventInterrupt("stall"))
+			}
 		case "channel":
 			hasChannel = true
 			go func() {
@@ -371,6 +416,20 @@ wait:
 		return fmt.Errorf("after %s: %d tcell background goroutine(s) still running:\n%s", c.Last, n, tcellStacks())
 	}
 
+	if stalled {
+		if c.Last != "fini" {
+			close(stalledQuit)
+		}
+		// Fini (or quit) is the cancellation signal: the forwarding goroutine must
+		// leave even though its consumer has stopped receiving, and close the channel
+		deadline := time.Now().Add(5 * time.Second)
+		for channelEventsCount() > chanBaseline && time.Now().Before(deadline) {
+			time.Sleep(2 * time.Millisecond)
+		}
+		if n := channelEventsCount() - chanBaseline; n > 0 && !hasChannel {
+			return fmt.Errorf("after %s: a ChannelEvents goroutine whose consumer stopped receiving is still parked (its channel is never closed):\n%s", c.Last, tcellStacks())
+		}
+	}
 	if c.Last == "fini" {
 		// PollEvent returns nil at once (stale queued events may come first)
 		gotNil := false
@@ -496,6 +555,9 @@ func classes(c Case) []string {
 	}
 	if c.Cycles > 0 {
 		out = append(out, "suspend-resume-cycles")
+		if c.ResizeAway {
+			out = append(out, "window-resized-while-suspended")
+		}
 	}
 	for _, a := range c.Actors {
 		out = append(out, "actor:"+a)
